@@ -355,7 +355,17 @@ def eval_state(tam, bpm, prf, parts, q_prev, t_prev, q, t, flags, mode):
     qp = tam['lmp'].derivs(t, q, q0l, q1l, prf, bpm.p, parts)
     qp = np.array(qp, dtype=float)
     env, ps = _read_closures(tam, q, q0l, q1l, bpm.p, parts, lay)
-    return {'q': q, 'qp': qp, 'env': env, 'ps': ps, 'lay': lay}
+    # the slot map used by the budgets must be the one LagElement.update unpacks with
+    unpack_ok = True
+    for i, sl in enumerate(lay['particles']):
+        a, e = sl['m']
+        unpack_ok = unpack_ok and np.array_equal(np.asarray(q1l.M_p[i]), q[a:e]) and float(q1l.H_p[i]) == float(q[sl['H']]) \
+            and np.array_equal(np.asarray(q1l.X_p[i]), q[sl['X'][0]:sl['X'][1]], equal_nan=True)
+    a, e = lay['chems']
+    unpack_ok = unpack_ok and np.array_equal(np.asarray(q1l.cpe), q[a:e])
+    a, e = lay['tracers']
+    unpack_ok = unpack_ok and (e == a or np.array_equal(np.asarray(q1l.cte), q[a:e]))
+    return {'q': q, 'qp': qp, 'env': env, 'ps': ps, 'lay': lay, 'unpack_ok': bool(unpack_ok)}
 
 
 def _case(scn, k, q_prev, t_prev, q, t, flags, mode, tag):
@@ -447,6 +457,9 @@ def run(ctx, lean_ok):
             ctx.violation('layout-length', 'derivs vector length is not 11 + sum(nc_i+5) + nchems + ntracers',
                           dict(case, expected=lay['len'], got=len(qp)))
             continue
+        if not res['unpack_ok']:
+            ctx.violation('layout-unpack', 'LagElement.update does not unpack the state with the layout 11 + (nc_i + 5)* + nchems + ntracers',
+                          dict(case))
         for i, blk in outside_nonzero(qp, ps, lay):
             ctx.violation('outside-particle-contributes', 'a particle outside the plume has a non-zero derivative slot',
                           dict(case, particle=i, block=blk))
@@ -472,14 +485,47 @@ def run(ctx, lean_ok):
                               dict(case, budget=key, lhs=float(lhs), rhs=float(rhs), scale=float(scale),
                                    derivs=[float(x) for x in qp]))
     ctx.notes.append('worst budget residual relative to sum|terms| on the real vectors: %.3g' % worst_id)
+    ctx.notes.append('observation (not judged by C03): LagElement.update leaves on the element the k_bio of the LAST particle of the '
+                     'list; in %d states a soluble particle inside the plume biodegrades while the dissolved pool is given k_bio = 0 '
+                     '(last particle inert / younger than its lag time), in %d states the dissolved pool biodegrades; the budget closes '
+                     'with that value in every state' % (ctx.hist.get('element-k_bio-zero-while-a-particle-biodegrades', 0),
+                                                         ctx.hist.get('element-k_bio-nonzero', 0)))
 
     # ---- correspondence with the Lean model -----------------------------------------------------
     if not lean_ok:
         return
     lines = [_encode(res['env'], res['ps']) for _case_, res in states]
-    out = run_driver(ctx, 'C03', lines)
-    if out is None:
+    tot_lines, tot_want = [], []
+    for _case_, res in states:
+        c = (len(tot_lines) * 7) % max(res['env']['nchems'], 1)
+        short = []
+        for p in res['ps']:
+            short += [int(p['integrate']), int(p['issoluble']), int(p['nc'])]
+        tot_lines.append(req('Lmp.totals', res['qp'], c, *short))
+        lay, qp = res['lay'], res['qp']
+        ct = qp[lay['chems'][0] + c] if res['env']['nchems'] > 0 else (qp[lay['chems'][0] + c] if lay['chems'][0] + c < len(qp) else 0.)
+        ct_scale = abs(ct)
+        for i, p in enumerate(res['ps']):
+            if p['issoluble']:
+                ct += qp[lay['particles'][i]['m'][0] + c]
+                ct_scale += abs(qp[lay['particles'][i]['m'][0] + c])
+        ht = qp[2] + sum(qp[sl['H']] for sl in lay['particles'])
+        ht_scale = abs(qp[2]) + sum(abs(qp[sl['H']]) for sl in lay['particles'])
+        tot_want.append((ct, ct_scale, ht, ht_scale, res['env']['nchems']))
+    out_all = run_driver(ctx, 'C03', lines + tot_lines)
+    if out_all is None:
         return
+    out, out_tot = out_all[:len(lines)], out_all[len(lines):]
+    nbad_t = 0
+    for (ct, cs, ht, hs, nch), o in zip(tot_want, out_tot):
+        ok = isinstance(o, list) and len(o) == 2 and close(float(o[1]), float(ht), TOL['gen_vs_source'], abs_floor=TOL['gen_vs_source'] * hs + TOL['abs_floor']) \
+            and (nch == 0 or close(float(o[0]), float(ct), TOL['gen_vs_source'], abs_floor=TOL['gen_vs_source'] * cs + TOL['abs_floor']))
+        if not ok:
+            nbad_t += 1
+            if nbad_t <= 3:
+                ctx.broken.append(('correspondence', 'Model.Lmp.compoundTotal/heatTotal vs slot sums by the real layout', 'model %r want %r' % (o, (ct, ht))))
+    ctx.oblige('read-out functionals Model.Lmp.compoundTotal / heatTotal == slot sums with the layout of LagElement.update on %d real vectors' % len(tot_lines),
+               nbad_t == 0, '%d disagree' % nbad_t)
     nbad = 0
     worst = 0.
     for (case, res), o in zip(states, out):
